@@ -476,6 +476,12 @@ class Body:
                 t = ("var", l, self.local_name(l))
         else:
             ds = self.defs().get(l, [])
+            # a number (or Wrapping<number>) that is also changed through `&mut` (`x += 1` on a wrapper type is a call
+            # to AddAssign::add_assign(&mut x, 1)) has no single defining expression
+            lty = self.locals[l]["ty"] or ""
+            if len(ds) == 1 and (lty.startswith("std::num::Wrapping<") or lty in ("u8", "u16", "u32", "u64", "usize", "i8", "i16", "i32", "i64", "isize")) \
+                    and (self.mut_borrows().get(l) or self.partial_writes().get(l)):
+                ds = []
             if len(ds) == 1:
                 bi, si, kind, payload = ds[0]
                 if kind == "assign":
